@@ -84,6 +84,18 @@ def build_pool():
     pool.append({"op": "load_one", "file": "water.xyz", "fmt": "nosuchformat"})
     pool.append({"op": "load_one", "file": "water.xyz", "fmt": "fchk"})
     pool.append({"op": "load_one", "file": "h2o_sto3g.wfn", "fmt": "wfx"})
+    # unknown element symbols / bond types (inline files): outcomes that flip when a table learns them
+    unk_mol2 = ("@<TRIPOS>MOLECULE\nunk\n 2 1 0 0\nSMALL\nNO_CHARGES\n\n@<TRIPOS>ATOM\n"
+                "      1 Xx1        0.0000    0.0000    0.0000 Xx      1 UNK  0.0000\n"
+                "      2 Qq2        0.0000    0.0000    1.0000 Qq      1 UNK  0.0000\n"
+                "@<TRIPOS>BOND\n     1     1     2   zz\n")
+    unk_xyz = "2\nunknown symbols\nXx 0.0 0.0 0.0\nQq 0.0 0.0 1.0\n"
+    unk_pdb = ("ATOM      1 Xx1  UNK     1       0.000   0.000   0.000  1.00  0.00          Xx\n"
+               "ATOM      2  Q1  UNK     1       0.000   0.000   1.000  1.00  0.00            \nEND\n")
+    unk_sdf = "unk\n\n\n  2  1  0     0  0  0  0  0  0999 V2000\n    0.0000    0.0000    0.0000 Xx  0  0\n    0.0000    0.0000    1.0000 Qq  0  0\n  1  2  9  0  0  0  0\nM  END\n$$$$\n"
+    for fname, text in (("unk.mol2", unk_mol2), ("unk.xyz", unk_xyz), ("unk.pdb", unk_pdb), ("unk.sdf", unk_sdf)):
+        pool.append({"op": "load_one", "file": fname, "fmt": None, "inline": text})
+    pool.append({"op": "load_many", "file": "unk.mol2", "fmt": None, "inline": unk_mol2})
     # dumps
     for fmt in sorted(c08.ONE):
         fname, recipes = c08.ONE[fmt]
@@ -129,7 +141,9 @@ def prepare_call(call):
         prep["obj"] = gen.build(call["obj"])
     if call["op"] == "dump_many":
         prep["frames"] = gen.all_frames(call["src"])[:4]
-    if "file" in call:
+    if "inline" in call:
+        prep["data"] = call["inline"].encode()
+    elif "file" in call:
         data = common.corpus_bytes(call["file"])
         if "cut" in call:
             data = data[: call["cut"]]
